@@ -165,6 +165,32 @@ def _gen(rng, tier):
             Cm = [[Cm[p[i]][p[j]] for j in range(len(Cm))] for i in range(len(Cm))]
             style = 'rare-state'
         yield {'k': 'mat', 'M': [[str(x) for x in r] for r in _norm(Cm)], 'style': style}
+    for _ in range(G.budget(8) if tier == 'quick' else 200):
+        if rng.random() < 0.5:
+            # a state that is never left (all-zero row) but entered with a probability of 1e-9: not a transition matrix
+            n = rng.randint(3, 5)
+            Cm, _st = _random_counts(rng, n - 1)
+            T = _norm(Cm)
+            for row in T:
+                row.append(Fraction(0))
+            T.append([Fraction(0)] * n)
+            i = rng.randrange(n - 1)
+            eps = Fraction(rng.choice([1, 25, 9]), 10**10)
+            k = max(range(n - 1), key=lambda c: T[i][c])
+            T[i][k] -= eps
+            T[i][n - 1] = eps
+            yield {'k': 'mat', 'M': [[str(x) for x in r] for r in T], 'style': 'tiny-entry'}
+        else:
+            # a line of metastable states: every diagonal entry positive, hops of a few percent
+            n = rng.randint(6, 8)
+            hop = Fraction(rng.choice([25, 30, 50]), 1000)
+            T = [[Fraction(0)] * n for _ in range(n)]
+            for i in range(n):
+                for j in (i - 1, i + 1):
+                    if 0 <= j < n:
+                        T[i][j] = hop
+                T[i][i] = 1 - sum(T[i])
+            yield {'k': 'mat', 'M': [[str(x) for x in r] for r in T], 'style': 'metastable-line'}
     for _ in range(6 if tier == 'quick' else 60):
         n, m = rng.choice([(2, 3), (3, 2), (1, 1), (3, 1), (1, 4)])
         yield {'k': 'nonsquare', 'M': [[str(Fraction(1, m))] * m for _ in range(n)], 'style': 'nonsquare'}
